@@ -57,6 +57,12 @@ Definition cfg_partition (cfg : balance_cfg) (b : builder) : cresult partition :
 Definition run_stage {S} (p : processor S) (s : S) (days : list day) : cresult (S * list day) :=
   of_presult (process_days p s days).
 
+(* the checker as the code has it now: [true] = the repaired Checker.balance (/repo fix for F1 and
+   F18: a position that was never booked counts as zero; assertions on accounts other than
+   assets/liabilities are not compared), [false] = the pinned one *)
+Definition check_proc_current (repaired : bool) : processor check_state :=
+  if repaired then check_proc_fixed else check_proc false.
+
 Definition balance_query (cfg : balance_cfg) (part : partition) : query :=
   mkQuery (match bc_valuation cfg with Some _ => true | None => false end)
           (fun a c => (match bc_accounts cfg with [] => true | rs => rxs_match rs (acc_name a) end)
@@ -74,7 +80,7 @@ Definition balance_report (cfg : balance_cfg) (ds : list sdirective) : cresult (
   cbind (cfg_partition cfg b) (fun part =>
   let b := if bc_close cfg then builder_touch b (start_dates part) else b in
   let days := b_days b in
-  cbind (run_stage (check_proc (bc_lenient cfg)) check_init days) (fun r1 =>
+  cbind (run_stage (check_proc_current (bc_lenient cfg)) check_init days) (fun r1 =>
   cbind (match bc_valuation cfg with
          | Some v =>
            cbind (run_stage (compute_prices_proc v) (mkCp [] None) (snd r1)) (fun r2 =>
@@ -108,5 +114,10 @@ Definition check_cmd (lenient : bool) (ds : list sdirective) : cresult unit :=
    twice in print.go; the checker does not modify days) *)
 Definition print_cmd (lenient : bool) (ds : list sdirective) : cresult str :=
   cbind (load ds) (fun b =>
-  cbind (run_stage (check_proc lenient) check_init (b_days b)) (fun _ =>
+  cbind (run_stage (check_proc_current lenient) check_init (b_days b)) (fun _ =>
   COk (print_journal (b_days b)))).
+
+(* knut check FILE with the fully repaired checker (Model/Check.v, check_proc_fixed) *)
+Definition check_cmd_fixed (ds : list sdirective) : cresult unit :=
+  cbind (load ds) (fun b =>
+  cbind (run_stage check_proc_fixed check_init (b_days b)) (fun _ => COk tt)).
